@@ -17,9 +17,18 @@ def _work(item):
     impl = impl_b09.convert(text, o)
     req = impl_b09.convast_request(sx, o) if sx is not None else None
     aux = {}
-    if o["flags"][5] == "1" and impl.startswith("ok "):
-        o2 = dict(o, flags=o["flags"][:5] + "0" + o["flags"][6:])
-        aux["nodeps"] = impl_b09.convert(text, o2)
+    if impl.startswith("ok "):
+        f = o["flags"]
+        flip = lambda k: f[:k] + ("0" if f[k] == "1" else "1") + f[k + 1:]  # noqa: E731
+        if f[5] == "1":
+            aux["nodeps"] = impl_b09.convert(text, dict(o, flags=flip(5)))
+        # single-option variants for the option properties (C06, C11): filter, init, width, storage
+        aux["flip_filter"] = impl_b09.convert(text, dict(o, flags=flip(3)))
+        aux["flip_init"] = impl_b09.convert(text, dict(o, flags=flip(4)))
+        aux["flip_width"] = impl_b09.convert(text, dict(o, flags=flip(2)))
+        aux["flip_deps"] = impl_b09.convert(text, dict(o, flags=flip(5)))
+        aux["storage_32"] = impl_b09.convert(text, dict(o, storage=32))
+        aux["storage_77"] = impl_b09.convert(text, dict(o, storage=77))
     return req, impl, aux
 
 
